@@ -478,9 +478,11 @@ func t05Equal(a, b *KeyID) bool {
 func H05_text_roundtrip() {
 	ls := t05Lens()
 	t05Len = ls[vChoose(len(ls), "string-len")]
-	k := t05Fresh("", 1+vChoose(2, "nprins"))
+	k := t05Fresh("", vChoose(3, "nprins")) // no principals: a nil list, encoded as null
 	orig := k
-	orig.Principals = append([]string{}, k.Principals...)
+	if k.Principals != nil {
+		orig.Principals = append([]string{}, k.Principals...)
+	}
 	want := vAnd(k.Version == 1, s05Consistent(&k))
 	var s string
 	var err error
